@@ -336,7 +336,7 @@ func c29Sequential(c *core.Ctx, work string) {
 
 // c29Crash: crashes inside DropPrefix (E2 engine, family "drops").
 func c29Crash(c *core.Ctx, work string) {
-	cfgs := []crashConfig{{"base+drops", 0, "drops", false, 4, 70}, {"base+dropall", 0, "dropall", false, 4, 60}, {"snappy+drops", 1, "drops", false, 4, 70}, {"aes+dropall", 3, "dropall", false, 4, 60}}
+	cfgs := []crashConfig{{"base+drops", 0, "drops", false, 4, 70, 0}, {"base+dropall", 0, "dropall", false, 4, 60, 0}, {"snappy+drops", 1, "drops", false, 4, 70, 0}, {"aes+dropall", 3, "dropall", false, 4, 60, 0}}
 	if !c.Thorough() {
 		cfgs = cfgs[:2]
 	}
